@@ -71,6 +71,8 @@ def fillYly (r : Rule) (proto : Inst) (nti : Nat) : Option (List Inst) :=
   match capNti r nti with
   | none => some []                                -- COUNT used up: `goto fin`
   | some nti =>
+    -- `if (proto.m > 12U || proto.d > 31U) goto fin;` (naught is for no default)
+    if proto.m > 12 ∨ proto.d > 31 then some [] else
     -- check if we're ymd only
     let ymdp := r.wk.isEmpty ∧ r.dow.isEmpty ∧ r.doy.isEmpty ∧ r.easter.isEmpty ∧ r.dom.isEmpty
     let k := mkFillCtx r proto nti
